@@ -9,6 +9,7 @@
 From NC Require Import Model.Base Model.Utf8 Model.Framing10 Model.Framing11 Spec.RefFraming.
 From NC Require Import Proofs.ListFacts Proofs.Utf8Facts Proofs.Framing10Proofs Proofs.Framing11Proofs Proofs.FramingProofs.
 From NC Require Import Model.JunosParse Proofs.JunosParseProofs Proofs.HandoverProofs.
+From NC Require Import Proofs.FirstCharProofs.
 
 (* Refinement, 1.0: for every segmentation, read by read, the parser produces exactly the events
    the reference automaton produces while it consumes the same octets one at a time: nothing is
@@ -184,4 +185,52 @@ Example C01_ex_handover_run :
   map (fun r => length (outs (hx_run hx_init r)))
       [[firstn 14 (enc10 [ex_m1; ex_h2])]; [firstn 15 (enc10 [ex_m1; ex_h2])]; [firstn 26 (enc10 [ex_m1; ex_h2])];
        [firstn 27 (enc10 [ex_m1; ex_h2])]] = [0; 1; 1; 2]%nat.
+Proof. vm_compute. repeat split; reflexivity. Qed.
+
+(* ---------------- the first character of a message: U+FEFF (byte order mark, octets EF BB BF = [bom]) ----------------
+   Decoding in the model is bytes.decode('UTF-8'), not the 'utf-8-sig' codec: the decoded text has exactly the octets that
+   were decoded, so a leading U+FEFF (legal in front of an XML document, with or without XML declaration) is kept ... *)
+Theorem C01_decode_keeps_bom :
+  (forall b t : bytes, decode_strict b = Some t -> t = b) /\
+  (forall m : bytes, utf8_valid m = true -> decode_strict (bom ++ m) = Some (bom ++ m)) /\
+  (forall m : bytes, decode_strict (bom ++ m) <> Some m).
+Proof. repeat split; [exact decode_strict_id | exact decode_keeps_bom | exact decode_bom_not_dropped]. Qed.
+Print Assumptions C01_decode_keeps_bom.
+
+(* ... and str.strip keeps it (U+FEFF is not white space; rstrip stops at it at the latest). *)
+Theorem C01_strip_keeps_bom : forall m : bytes, exists k, strip (bom ++ m) = bom ++ k.
+Proof. exact strip_keeps_bom. Qed.
+Print Assumptions C01_strip_keeps_bom.
+
+(* Hence a message whose text begins with U+FEFF reaches the listeners with it under BOTH framings, for every chunking
+   (chunk boundaries inside the three octets included: [cs] is any list of non-empty chunks whose concatenation is the message)
+   and every cut of either stream into reads; the 1.0 delivery is str.strip of the 1.1 delivery and still begins with U+FEFF. *)
+Theorem C01_first_char_bom : forall (cs : list bytes) (m : bytes) (segs10 segs11 : list bytes),
+  Forall (fun c => c <> []) cs -> concat cs = bom ++ m -> utf8_valid m = true -> clean10 (bom ++ m) ->
+  concat segs10 = enc10 [bom ++ m] -> concat segs11 = enc11 [cs] ->
+  events feed11 init11 segs11 = [Deliver (bom ++ m)] /\
+  events feed10 init10 segs10 = [Deliver (strip (bom ++ m))] /\
+  firstn 3 (strip (bom ++ m)) = bom.
+Proof. exact c01_bom_both. Qed.
+Print Assumptions C01_first_char_bom.
+
+(* non-vacuity: U+FEFF <?xml?> <a>é</a> LF; chunks of 1, 1 and the remaining octets (boundaries inside the mark), reads cut inside
+   the mark as well; and U+FEFF alone, U+FEFF twice *)
+Definition ex_bm : bytes := [60; 63; 120; 109; 108; 63; 62] ++ ex_m1 ++ [10].          (* "<?xml?><a>é</a>" LF (body of the example) *)
+Definition ex_bcs : list bytes := [[239]; [187]; 191 :: ex_bm].
+Definition ex_bcut (s : bytes) : list bytes := [firstn 4 s; firstn 1 (skipn 4 s); firstn 3 (skipn 5 s); skipn 8 s].
+Definition ex_bcut10 (s : bytes) : list bytes := [firstn 1 s; firstn 1 (skipn 1 s); skipn 2 s].
+
+Example C01_ex_bom_hyp :
+  Forall (fun c : bytes => c <> []) ex_bcs /\ concat ex_bcs = bom ++ ex_bm /\ utf8_valid ex_bm = true /\ clean10 (bom ++ ex_bm) /\
+  concat (ex_bcut10 (enc10 [bom ++ ex_bm])) = enc10 [bom ++ ex_bm] /\ concat (ex_bcut (enc11 [ex_bcs])) = enc11 [ex_bcs].
+Proof.
+  repeat split; repeat constructor; try discriminate; unfold clean10; apply find_none; vm_compute; reflexivity.
+Qed.
+
+Example C01_ex_bom_run :
+  events feed11 init11 (ex_bcut (enc11 [ex_bcs])) = [Deliver (bom ++ ex_bm)] /\
+  events feed10 init10 (ex_bcut10 (enc10 [bom ++ ex_bm])) = [Deliver (bom ++ [60; 63; 120; 109; 108; 63; 62] ++ ex_m1)] /\
+  events feed11 init11 [enc11 [[bom]; [[239; 187]; [191; 239]; [187; 191]]]] = [Deliver bom; Deliver (bom ++ bom)] /\
+  events feed10 init10 [enc10 [bom; bom ++ bom]] = [Deliver bom; Deliver (bom ++ bom)].
 Proof. vm_compute. repeat split; reflexivity. Qed.
